@@ -188,10 +188,10 @@ class Result:
 
 def _parse_out(text, n):
     res = [None] * n
+    pat = re.compile(r"^(\d+) ((?:OK|ERR|PANIC|TIMEOUT|NODRAW|MODELFAIL)(?: .*)?)$")
     for line in text.split("\n"):
-        if not line: continue
-        i, _, rest = line.partition(" ")
-        res[int(i)] = Result(rest)
+        m = pat.match(line)      # the library prints diagnostics of its own on stdout: ignored
+        if m: res[int(m.group(1))] = Result(m.group(2))
     return res
 
 class Session:
